@@ -24,7 +24,7 @@ def exhaustive(tier):
 def cases(tier, seed):
     rng = np.random.default_rng([10, seed])
     out = []
-    nmax, per_n, nrand = (6, 4, 30) if tier == "quick" else (9, 22, 400)
+    nmax, per_n, nrand = (6, 4, 30) if tier == "quick" else (10, 30, 6000)
     for n in range(1, nmax + 1):
         for j in range(per_n if n > 2 else 2):
             out.append({"kind": "exhaustive", "n": n, "s": int(rng.integers(1 << 30)), "cell": ["ortho", "tri", None][j % 3]})
@@ -113,7 +113,7 @@ def run_case(case, ctx):
 
 def requirements(stats, tier):
     need = []
-    if stats.get("deletions_checked") < (1000 if tier == "quick" else 20000):
+    if stats.get("deletions_checked") < (1000 if tier == "quick" else 100000):
         need.append("too few deletions observed: %d" % stats.get("deletions_checked"))
     if stats.nseen("kinds_present") < 4:
         need.append("not all four term kinds were present in some structure")
